@@ -193,7 +193,12 @@ type Result struct {
 }
 
 // Exec parses and executes one statement.
-func (db *DB) Exec(sql string) (*Result, error) {
+func (db *DB) Exec(sql string) (res *Result, err error) {
+	defer func() {
+		if r := recover(); r != nil {
+			res, err = nil, unsupported("internal error: %v", r)
+		}
+	}()
 	st, err := Parse(sql)
 	if err != nil {
 		return nil, err
@@ -203,6 +208,11 @@ func (db *DB) Exec(sql string) (*Result, error) {
 
 // ExecStmt executes a parsed statement.
 func (db *DB) ExecStmt(st *Statement) (res *Result, err error) {
+	defer func() {
+		if r := recover(); r != nil {
+			res, err = nil, unsupported("internal error: %v", r)
+		}
+	}()
 	x := &execCtx{db: db, sets: map[Expr]*valueSet{}, scalars: map[*Subquery]scalarRes{}}
 	rel, err := x.evalSelectNode(st.Select, nil)
 	if err != nil {
